@@ -184,7 +184,19 @@ func ordEval(fn *ssa.Function, env map[ssa.Value]ssa.Value, as ordAssume, depth 
 							sub[p] = resolve(t.Call.Args[i])
 						}
 					}
-					if r, ok := ordEval(f, sub, as, depth-1); ok {
+					// what this invocation already computed for the arguments is known to the callee
+					as2 := as
+					outerVal := as.val
+					as2.val = func(v ssa.Value) (ordVal, bool) {
+						if r, ok := vals[v]; ok && r.kind != 0 {
+							return r, true
+						}
+						if outerVal != nil {
+							return outerVal(v)
+						}
+						return ordVal{}, false
+					}
+					if r, ok := ordEval(f, sub, as2, depth-1); ok {
 						vals[t] = r
 					}
 				}
